@@ -222,8 +222,8 @@ func (g *gen) value(t *ctype, allowNull bool) *aval {
 			} else {
 				k = g.value(t.key, g.pick(4) == 0)
 			}
-			if seen[k.canon().coq()] {
-				continue
+			if seen[k.canon().coq()] || isNaNKey(t.key, k) {
+				continue // a NaN can not be looked up in a Go map: covered by the directed case "nan-key" instead
 			}
 			seen[k.canon().coq()] = true
 			r.pairs = append(r.pairs, [2]*aval{k, g.value(t.val, true)})
@@ -237,6 +237,17 @@ func (g *gen) value(t *ctype, allowNull bool) *aval {
 		return r
 	}
 	panic("value")
+}
+
+func isNaNKey(t *ctype, k *aval) bool {
+	if k.kind != "float" {
+		return false
+	}
+	b := k.z.Uint64()
+	if t.scalar == "SFloat" {
+		return b&0x7f800000 == 0x7f800000 && b&0x007fffff != 0
+	}
+	return b&0x7ff0000000000000 == 0x7ff0000000000000 && b&0x000fffffffffffff != 0
 }
 
 func cmdGen(n int) {
